@@ -4,6 +4,8 @@ import FrappyProofs.Lemmas.DatatypesMonitor
 import FrappyProofs.Lemmas.DatatypesDenotesM
 import FrappyProofs.Lemmas.DatatypesImport
 import FrappyProofs.Lemmas.RatLawful
+import FrappyProofs.Lemmas.DatatypesCanon
+import FrappyProofs.Lemmas.RatGrid
 import FrappyModel.Generated.C01
 /-
 C01 — property theorems (nothing but property theorems and their non-vacuity examples).
@@ -60,30 +62,42 @@ theorem accept_denotes (dt : DType F) (hwf : dt.WF) (j : JVal F) (prev : Option 
   · rename_i v hv
     exact ⟨v, import_denotes dt j v hv, validate_denotes dt hwf v prev hprev r h⟩
 
-/-! ## validating a validated value returns it unchanged (statements; not proved yet) -/
+/-! ## validating a validated value returns it unchanged -/
 
-/-- the grid of a scaled type is exactly representable on its index range: `round((k*scale)/scale) = k`
-and the range test admits every grid value between the limits (true for every `k` on the `Rat`
-carrier; for binary64 it fails only when `scale` is below half an ulp of the limits) -/
-def GridExact : DType F → Prop
-  | .scaled scale min max _ _ =>
-    ∀ k x, DType.ofGrid scale k = some x → BetweenSnapped scale min max x →
-      DType.gridIndex scale (FloatOps.addZero x) = some k ∧
-      FloatOps.lt (FloatOps.sub min scale) (FloatOps.addZero x) = true ∧
-      FloatOps.lt (FloatOps.addZero x) (FloatOps.add max scale) = true
-  | _ => True
+/-- a value of the declared value set in canonical form (`Canon`: no `-0.0` leaf — `validate` returns
+`0.0` for `-0.0`, equal in Python's sense but not the same representation) is returned unchanged, without
+and with itself as `previous`.  `GridExact dt`: for every scaled type in the tree the grid is exactly
+representable on the declared range (`round((k*scale)/scale) = k`, finite); it holds for every scaled
+type over `Rat` and for binary64 wherever `scale` is not below the float spacing at the limits. -/
+theorem validate_idem (dt : DType F) (hwf : dt.WF) (hgrid : GridExact dt) (r : PVal F) (hin : InSet dt r)
+    (hcanon : Canon r) : validate dt r none = .ok r ∧ validate dt r (some r) = .ok r :=
+  conv_idem dt r hwf hgrid hin hcanon
 
-/-- full statement of idempotence (kept for the record; the monitors judge it on every accepted value
-of the implementation: `re1`, `re2`, `recall` in the harness) -/
+/-- what `validate` returns is in canonical form (given that `previous` is) -/
+theorem validate_canon (dt : DType F) (hwf : dt.WF) (v : PVal F) (prev : Option (PVal F))
+    (hprev : ∀ p, prev = some p → Canon p) (r : PVal F) (h : validate dt v prev = .ok r) : Canon r :=
+  conv_canon dt v prev r hwf hprev h
+
+/-- "validating an already validated value returns it unchanged" -/
+theorem revalidate_unchanged (dt : DType F) (hwf : dt.WF) (hgrid : GridExact dt) (v : PVal F)
+    (prev : Option (PVal F)) (hprev : ∀ p, prev = some p → InSet dt p ∧ Canon p) (r : PVal F)
+    (h : validate dt v prev = .ok r) : validate dt r none = .ok r ∧ validate dt r (some r) = .ok r :=
+  validate_idem dt hwf hgrid r
+    (validate_sound dt hwf v prev (fun p hp => (hprev p hp).1) r h)
+    (validate_canon dt hwf v prev (fun p hp => (hprev p hp).2) r h)
+
+/-- the same statement without the grid hypothesis is not a consequence of the float laws (and is false
+for binary64 where `scale` is below the float spacing at the limits; the repaired `ScaledInteger.validate`
+removed the failing inputs the search found, see design notes) -/
 def validate_idem_statement : Prop :=
-  ∀ (F : Type) [FloatOps F] [LawfulFloatOps F] (dt : DType F), dt.WF → ∀ (v : PVal F) (prev : Option (PVal F)),
-    (∀ p, prev = some p → InSet dt p ∧ Canon p) → ∀ r, validate dt v prev = .ok r →
-    (∀ sub : DType F, GridExact sub) →
+  ∀ (F : Type) [FloatOps F] [LawfulFloatOps F] (dt : DType F), dt.WF → ∀ (r : PVal F), InSet dt r → Canon r →
     validate dt r none = .ok r ∧ validate dt r (some r) = .ok r
 
+/-- idempotence of the conversion-only path `__call__` (not proved; judged by the monitor `judgeCall` on
+every outcome of the implementation) -/
 def call_idem_statement : Prop :=
-  ∀ (F : Type) [FloatOps F] [LawfulFloatOps F] (dt : DType F), dt.WF → ∀ (v r : PVal F), call dt v = .ok r →
-    (∀ sub : DType F, GridExact sub) → call dt r = .ok r
+  ∀ (F : Type) [FloatOps F] [LawfulFloatOps F] (dt : DType F), dt.WF → GridExact dt → ∀ (v r : PVal F),
+    call dt v = .ok r → call dt r = .ok r
 
 /-! ## never any other kind of exception -/
 
@@ -159,8 +173,15 @@ example : (match acceptWire exTree (.obj [("a", .arr [.str "5"]), ("c", .int 1)]
     | _ => false) = true := by
   decide +kernel
 
-/-- `GridExact` holds on the exact carrier for a concrete scaled type (the hypothesis of the idempotence statement is satisfiable) -/
-example : DType.gridIndex (1/10 : Rat) (FloatOps.addZero (3/10 : Rat)) = some 3 := by decide +kernel
+/-- the hypotheses of `validate_idem` are satisfiable: the example tree has an exact grid over `Rat`,
+and the accepted value of the example above is returned unchanged -/
+theorem exTree_gridExact : GridExact exTree := by
+  simp only [exTree, GridExact, GridExactFields, and_true]
+  exact rat_gridExact_example
+
+example : validate exTree exResult none = .ok exResult ∧ validate exTree exResult (some exResult) = .ok exResult :=
+  validate_idem exTree exTree_wf exTree_gridExact exResult (inSetB_sound _ _ (by decide +kernel))
+    (by simp only [exResult, Canon, CanonFields, CanonList]; decide +kernel)
 
 /-! ## constants of the source -/
 
